@@ -507,13 +507,16 @@ func (w *World) Step() {
 		return
 	}
 	t := tabs[s.Draw(len(tabs), "table")]
-	weights := []int{10, 6, 6, 0, 0, 0, 0, 0, 0, 0, 0, 0, 0, 0, 0}
+	weights := []int{10, 6, 6, 0, 0, 0, 0, 0, 0, 0, 0, 0, 0, 0, 0, 0}
 	if w.Prof.DDL {
-		weights[3], weights[4], weights[5], weights[6], weights[7], weights[8], weights[11], weights[12] = 2, 1, 3, 1, 1, 1, 1, 1
+		weights[3], weights[4], weights[5], weights[6], weights[7], weights[8], weights[11], weights[12] = 2, 1, 3, 1, 4, 1, 1, 1
 		weights[13], weights[14] = 1, 1
 	}
 	if w.Prof.Vacuum {
 		weights[9], weights[10] = 1, 1
+		if len(w.Prof.PageSizes) > 1 {
+			weights[15] = 1
+		}
 	}
 	kind := s.Weighted(weights, "txnkind")
 	switch kind {
@@ -643,6 +646,20 @@ func (w *World) Step() {
 		}
 		w.Commit()
 		w.C.Probe("view-or-trigger-in-schema")
+	case 15: // VACUUM into another page size: the whole file is rebuilt under open handles
+		np := w.Prof.PageSizes[s.Draw(len(w.Prof.PageSizes), "newpagesize")]
+		w.Exec(fmt.Sprintf("PRAGMA page_size=%d", np))
+		if w.Exec("VACUUM") {
+			if v, _, err := w.W.Query(w.Conn, "PRAGMA page_size"); err == nil && len(v) == 1 {
+				if n, ok := v[0][0].(int64); ok {
+					if int(n) != w.PageSz {
+						w.C.Probe("vacuum-changed-page-size")
+					}
+					w.PageSz = int(n)
+				}
+			}
+		}
+		w.Refresh()
 	case 14: // ANALYZE creates sqlite_stat1 (an internal table)
 		w.Exec("ANALYZE")
 		w.Refresh()
